@@ -536,6 +536,24 @@ def r6_single_writer_site(chk):
                     ok = True
         chk.ob('C07.R6', 'compile/write-failure-status', ok, where(r.mod, trys[0]),
                'writer failure must be recorded as failed with error=')
+    # in every handler that files a module in the failed map, the failed status is stored on every path through the
+    # handler (no `if name not in <result>` round it: a status recorded earlier, e.g. borrowed, would survive a failure)
+    for h in [x for x in walk_no_nested(r.fn) if isinstance(x, ast.ExceptHandler)]:
+        fstores = [s for s in walk_no_nested(h) if cr.subscript_store(s) and cr.subscript_store(s)[0] == r.failed]
+        if not fstores:
+            continue
+        hn = cfg.by_ast.get(id(h))
+        rstores = set(cfg.node_of(s) for s in walk_no_nested(h) if cr.subscript_store(s) and
+                      cr.subscript_store(s)[0] == r.result and
+                      cr.status_of(cr.subscript_store(s)[2], r.status_consts) == 'failed')
+        rstores.discard(None)
+        if hn is None:
+            continue
+        seen = cfg.reach([hn], avoid=rstores, skip_labels=('exc',))
+        leaves = [n for n in seen if n.ast is not None and not in_subtree(n.ast, h)]
+        chk.ob('C07.R6', 'compile/failed-status-on-every-path@%s' % handler_label(chk, r, h), not leaves, where(r.mod, h),
+               'the handler files the module under %s but can be left without storing the failed status in %s' % (
+                   r.failed, r.result))
     # failed entries carry the causing error everywhere
     for s in walk_no_nested(r.fn):
         ss = cr.subscript_store(s)
